@@ -470,3 +470,228 @@ Proof.
   rewrite (init_of_set _ _ (set_tuples px py L ltac:(lia) S ltac:(lia)) ltac:(left; eexists; reflexivity) _ eq_refl).
   reflexivity.
 Qed.
+
+Fixpoint inter (a b : list R) : list (val R) :=
+  match a, b with x :: a', y :: b' => VFloat x :: VFloat y :: inter a' b' | _, _ => [] end.
+Lemma inter_nth_even : forall (a b : list R) i, List.length b = List.length a -> (i < List.length a)%nat ->
+  nth_error (inter a b) (2 * i) = Some (VFloat (nthR a i)).
+Proof.
+  unfold nthR. induction a as [|x a IH]; intros b i H Hi; [simpl in Hi; lia|].
+  destruct b as [|y b]; [discriminate|]. destruct i as [|i]; [reflexivity|].
+  replace (2 * S i)%nat with (S (S (2 * i))) by lia. cbn [inter nth_error nth].
+  apply IH; [simpl in H; lia | simpl in Hi; lia].
+Qed.
+Lemma inter_nth_odd : forall (a b : list R) i, List.length b = List.length a -> (i < List.length a)%nat ->
+  nth_error (inter a b) (2 * i + 1) = Some (VFloat (nthR b i)).
+Proof.
+  unfold nthR. induction a as [|x a IH]; intros b i H Hi; [simpl in Hi; lia|].
+  destruct b as [|y b]; [discriminate|]. destruct i as [|i]; [reflexivity|].
+  replace (2 * S i + 1)%nat with (S (S (2 * i + 1))) by lia. cbn [inter nth_error nth].
+  apply IH; [simpl in H; lia | simpl in Hi; lia].
+Qed.
+Lemma getitem_inter_even (a b : list R) i : List.length b = List.length a -> (i < List.length a)%nat ->
+  py_getitem Rops (VTuple (inter a b)) (VInt (2 * Z.of_nat i)) = VFloat (nthR a i).
+Proof.
+  intros H Hi. replace (2 * Z.of_nat i)%Z with (Z.of_nat (2 * i)) by lia. simpl py_getitem.
+  apply nth_val_nth. apply inter_nth_even; assumption.
+Qed.
+Lemma getitem_inter_odd (a b : list R) i : List.length b = List.length a -> (i < List.length a)%nat ->
+  py_getitem Rops (VTuple (inter a b)) (VInt (2 * Z.of_nat i + 1)) = VFloat (nthR b i).
+Proof.
+  intros H Hi. replace (2 * Z.of_nat i + 1)%Z with (Z.of_nat (2 * i + 1)) by lia. simpl py_getitem.
+  apply nth_val_nth. apply inter_nth_odd; assumption.
+Qed.
+Lemma inter_floats : forall a b : list R, Forall (fun v => exists r, v = @VFloat R r) (inter a b).
+Proof.
+  induction a as [|x a IH]; intros [|y b]; simpl; try constructor.
+  - eexists; reflexivity.
+  - constructor; [eexists; reflexivity | apply IH].
+Qed.
+
+Lemma Rtrunc_half' k : (0 <= k)%Z -> Rtrunc (IZR (2 * k) / Rlit 20 (-1)) = k.
+Proof.
+  intro Hk. replace (IZR (2 * k) / Rlit 20 (-1)) with (IZR k) by (rewrite mult_IZR; Rlit_norm; field).
+  unfold Rtrunc. destruct (Rlt_dec (IZR k) 0) as [H | H]; [apply (IZR_le 0 k) in Hk; lra | apply Rfloor_IZR].
+Qed.
+
+(* all_numbers = all_numbers and isinstance(arg, (int, float, Angle)) over a list of floats *)
+Definition alln_fix (K : val R -> val R -> val R) (tys : list tytag) :=
+  fix loop (l : list (val R)) (alln arg : val R) {struct l} : val R :=
+    match l with
+    | [] => K alln arg
+    | x :: l' => bind (py_and Rops alln (fun _ => isinstance x tys)) (fun a => loop l' a x)
+    end.
+Theorem alln_spec K : forall l arg, Forall (fun v => exists r, v = @VFloat R r) l ->
+  exists arg', alln_fix K [TInt; TFloat; TCls cAngle] l (VBool true) arg = K (VBool true) arg'.
+Proof.
+  induction l as [|x l IH]; intros arg F.
+  - exists arg. reflexivity.
+  - inversion F as [|? ? (r & ->) F']; subst. destruct (IH (VFloat r) F') as [arg' E].
+    exists arg'. rewrite <- E. reflexivity.
+Qed.
+
+(* for i in range(n): self._x.append(ga(i)); self._y.append(gb(i)) *)
+Definition idxapp_fix (K : val R -> val R -> val R) (ga gb : val R -> val R) :=
+  fix loop (l : list (val R)) (i self : val R) {struct l} : val R :=
+    match l with
+    | [] => K i self
+    | x38 :: l' =>
+        bind (set_field cInterpolation 0 self (py_append (get_field cInterpolation 0 self) (ga x38))) (fun s0 =>
+        bind VNone (fun _ =>
+        bind (set_field cInterpolation 1 s0 (py_append (get_field cInterpolation 1 s0) (gb x38))) (fun s1 =>
+        bind VNone (fun _ => loop l' x38 s1))))
+    end.
+Lemma firstn_S_nth (l : list R) m : (m < List.length l)%nat -> firstn (S m) l = firstn m l ++ [nthR l m].
+Proof.
+  revert m. induction l as [|x l IH]; intros m H; [simpl in H; lia|].
+  destruct m; [reflexivity|].
+  change (firstn (S (S m)) (x :: l)) with (x :: firstn (S m) l).
+  change (firstn (S m) (x :: l)) with (x :: firstn m l).
+  change (nthR (x :: l) (S m)) with (nthR l m).
+  rewrite IH by (simpl in H; lia). reflexivity.
+Qed.
+Theorem idxapp_spec K ga gb (a b : list R) (t tl : val R) :
+  List.length b = List.length a ->
+  (forall i, (i < List.length a)%nat -> ga (VInt (Z.of_nat i)) = VFloat (nthR a i)) ->
+  (forall i, (i < List.length a)%nat -> gb (VInt (Z.of_nat i)) = VFloat (nthR b i)) ->
+  forall r m i, (m + r <= List.length a)%nat ->
+  exists i',
+    idxapp_fix K ga gb (zrange_nat (Z.of_nat m) r) i
+      (VObj cInterpolation [VList (map VFloat (firstn m a)); VList (map VFloat (firstn m b)); t; tl])
+    = K i' (VObj cInterpolation [VList (map VFloat (firstn (m + r) a)); VList (map VFloat (firstn (m + r) b)); t; tl]).
+Proof.
+  intros L Ha Hb. induction r as [|r IH]; intros m i Hm.
+  - exists i. rewrite Nat.add_0_r. reflexivity.
+  - destruct (IH (S m) (VInt (Z.of_nat m)) ltac:(lia)) as [i' E]. exists i'.
+    rewrite (firstn_S_nth a m) in E by lia. rewrite (firstn_S_nth b m) in E by lia. rewrite !map_app in E.
+    rewrite zrange_nat_S. replace (m + S r)%nat with (S m + r)%nat by lia. rewrite <- E.
+    replace (Z.of_nat m + 1)%Z with (Z.of_nat (S m)) by lia.
+    simpl idxapp_fix. rewrite (Ha m) by lia. rewrite (Hb m) by lia. reflexivity.
+Qed.
+
+Ltac pyrunv_hook s tac ::=
+  lazymatch s with
+  | py_getitem _ (VTuple (inter ?a ?b)) (VInt (2 * Z.of_nat ?i)) => rewrite (getitem_inter_even a b i) by (first [assumption | lia])
+  | py_getitem _ (VTuple (inter ?a ?b)) (VInt (2 * Z.of_nat ?i + 1)) => rewrite (getitem_inter_odd a b i) by (first [assumption | lia])
+  | py_getitem _ (VList (map VFloat ?l)) (VInt (Z.of_nat ?i)) => rewrite (getitem_flist l i) by lia
+  | context [get_field ?c ?i (VObj ?c' ?l)] =>
+      let v := eval cbv [get_field cInterpolation Pos.eqb nth] in (get_field c i (VObj c' l)) in
+      change (get_field c i (VObj c' l)) with v
+  end.
+
+Ltac set_tail px :=
+  getf0;
+  match goal with |- bind ?e _ = _ =>
+    let Er := fresh "Er" in
+    assert (Er : e = VList (zrange_nat 0 (List.length px - 1)));
+    [ cbv -[Z.of_nat List.length List.map Z.sub Z.to_nat zrange_nat]; rewrite map_length;
+      replace (Z.to_nat (Z.of_nat (List.length px) - 1 - 0)) with (List.length px - 1)%nat by lia; reflexivity
+    | rewrite Er, bind_VList; clear Er ] end;
+  cbv beta;
+  match goal with |- context [seq_of (VList ?l)] => change (seq_of (VList l)) with l end;
+  match goal with |- ?f _ _ _ = _ =>
+     let g := open_constr:(dup_fix _ _ _) in unify f g; change f with g end.
+
+Section Scal.
+Variables px py : list R.
+Hypothesis Hlen : List.length py = List.length px.
+Hypothesis Hn2 : (2 <= List.length px)%nat.
+Lemma inter_length : forall a b : list R, List.length b = List.length a -> List.length (inter a b) = (2 * List.length a)%nat.
+Proof. induction a as [|x a IH]; intros [|y b] H; simpl in *; try reflexivity; try discriminate. rewrite IH by lia. lia. Qed.
+
+Notation S0 := (VObj cInterpolation [VList []; VList []; VList []; VFloat (Rlit 1 (-10))]).
+Ltac len_ne k :=
+  match goal with |- context [?f Rops (py_len (VTuple (inter px py))) (VInt k)] =>
+    let E := fresh "E" in
+    assert (E : f Rops (py_len (VTuple (inter px py))) (VInt k) = VBool false);
+    [ cbv -[Z.of_nat List.length inter Z.eqb]; rewrite (inter_length px py Hlen);
+      destruct (Z.eqb_spec (Z.of_nat (2 * List.length px)) k); [lia | reflexivity]
+    | rewrite E; clear E ] end.
+
+Hypothesis Hsep : separated px.
+Hypothesis H64 : (List.length px <= 64)%nat.
+Notation n := (List.length px).
+
+Theorem set_scalars :
+  Interpolation_set Rops S0 (VTuple (inter px py)) = VTuple [built (sx px) (sy px py); VNone].
+Proof.
+  assert (Hne : px <> []) by (intro E; rewrite E in Hn2; simpl in Hn2; lia).
+  destruct (stored_pipeline px py Hlen Hne Hsep H64) as (Eo & Ec & _).
+  unfold built, tobj, flist, tol0 in Eo, Ec. unfold built, tobj.
+  unfold Interpolation_set.
+  len_ne 0%Z. len_ne 1%Z. len_ne 2%Z. len_ne 3%Z.
+  grun.
+  match goal with |- context [bind (base_eq Rops ?m (VInt 0)) ?k] =>
+    assert (Emod : m = VInt 0) end.
+  { cbv -[Z.of_nat List.length inter Z.modulo]. rewrite (inter_length px py Hlen), Nat2Z.inj_mul.
+    rewrite Z.mul_comm, Z_mod_mult. reflexivity. }
+  rewrite Emod. clear Emod.
+  grun.
+  change (py_iter (VTuple (inter px py))) with (VTuple (inter px py)). rewrite bind_VTuple. cbv beta.
+  change (seq_of (VTuple (inter px py))) with (inter px py).
+  match goal with |- ?f _ _ _ = _ =>
+     let g := open_constr:(alln_fix _ _) in unify f g; change f with g end.
+  match goal with |- alln_fix ?KK _ _ _ ?aa = _ =>
+    destruct (alln_spec KK (inter px py) aa (inter_floats px py)) as [arg' E]; rewrite E; clear E end.
+  cbv beta.
+  grun.
+  match goal with |- context [py_range (VInt 0) ?a] =>
+    assert (Ei : a = VInt (Z.of_nat (List.length px))) end.
+  { simpl py_len. rewrite (inter_length px py Hlen), Nat2Z.inj_mul. change (Z.of_nat 2) with 2%Z.
+    grun. rewrite Rtrunc_half' by lia. reflexivity. }
+  rewrite Ei. clear Ei.
+  match goal with |- bind ?e _ = _ => assert (Er : e = VList (zrange_nat 0 (List.length px))) end.
+  { unfold py_range. cbn [norm py_iter]. rewrite Z.sub_0_r, Nat2Z.id. reflexivity. }
+  rewrite Er, bind_VList. clear Er. cbv beta.
+  match goal with |- context [seq_of (VList ?l)] => change (seq_of (VList l)) with l end.
+  match goal with |- ?f _ _ _ = _ =>
+     let g := open_constr:(idxapp_fix _ _ _) in unify f g; change f with g end.
+  change S0 with (VObj cInterpolation [VList (map (@VFloat R) (firstn 0 px)); VList (map (@VFloat R) (firstn 0 py)); VList []; VFloat (Rlit 1 (-10))]).
+  match goal with |- idxapp_fix ?KK ?gga ?ggb _ ?ii _ = _ =>
+    destruct (idxapp_spec KK gga ggb px py (VList []) (VFloat (Rlit 1 (-10))) Hlen) with (r := List.length px) (m := 0%nat) (i := ii) as [i1 E] end.
+  { intros i Hi. cbv beta. grun. reflexivity. }
+  { intros i Hi. cbv beta. grun. reflexivity. }
+  { lia. }
+  change (Z.of_nat 0) with 0%Z in E. rewrite E. clear E. cbv beta.
+  rewrite Nat.add_0_l, firstn_all, (firstn_all2 py) by lia.
+  set_tail px.
+  match goal with |- dup_fix ?KK ?rrng ?ccond _ ?ii ?kk = _ =>
+    destruct (dup_none KK rrng ccond n) with (r := (n - 1)%nat) (m := 0%nat) (i := ii) (k := kk) as (i' & k' & E) end.
+  - intros i Hi. cbv beta. cbv -[Z.of_nat List.length List.map Z.sub Z.add Z.to_nat zrange_nat]. rewrite map_length.
+    replace (Z.of_nat i + 1)%Z with (Z.of_nat (S i)) by lia.
+    replace (Z.to_nat (Z.of_nat n - Z.of_nat (S i))) with (n - S i)%nat by lia. reflexivity.
+  - intros i k Hik. cbv beta.
+    assert (HS : Rlit 1 (-10) <= Rabs (nthR px i - nthR px k)) by (apply (Hsep i k); lia).
+    grun. rewrite (proj2 (Rltb_false _ _)) by exact HS. reflexivity.
+  - lia.
+  - change (Z.of_nat 0) with 0%Z in E. rewrite E. clear E. cbv beta.
+    change (VFloat tol0) with (VFloat (Rlit 1 (-10))).
+    change (map VFloat []) with (@nil (val R)) in Eo, Ec.
+    rewrite Eo.
+    change (bind (VTuple ?l) ?f) with (f (VTuple l)). cbv beta.
+    repeat match goal with |- context [item (VTuple [?a; ?b]) 0] => change (item (VTuple [a; b]) 0) with a end.
+    repeat match goal with |- context [item (VTuple [?a; ?b]) 1] => change (item (VTuple [a; b]) 1) with b end.
+    rewrite bind_VNone. getf0.
+    assert (Lsx : List.length (sx px) = n).
+    { destruct (order_any px py (VList []) Hlen Hne (separated_NoDup px Hsep)) as (_ & _ & _ & L1 & _). exact L1. }
+    match goal with |- ifv Rops ?c _ _ = _ => assert (Eg : c = VBool true) end.
+    { cbv -[Z.of_nat List.length List.map Z.gtb sx]. rewrite map_length, Lsx.
+      destruct (Z.gtb_spec (Z.of_nat n) 0); [reflexivity | lia]. }
+    rewrite Eg. clear Eg. change (ifv Rops (VBool true) ?a ?b) with (a tt). cbv beta.
+    rewrite Ec.
+    change (bind (VTuple ?l) ?f) with (f (VTuple l)). cbv beta.
+    repeat match goal with |- context [item (VTuple [?a; ?b]) 0] => change (item (VTuple [a; b]) 0) with a end.
+    repeat match goal with |- context [item (VTuple [?a; ?b]) 1] => change (item (VTuple [a; b]) 1) with b end.
+    rewrite bind_VNone. reflexivity.
+Qed.
+End Scal.
+
+Theorem init_scalars (px py : list R) :
+  List.length py = List.length px -> (2 <= List.length px <= 64)%nat -> separated px ->
+  Interpolation___init__ Rops (VObj cInterpolation [VNone; VNone; VNone; VNone]) (VTuple (inter px py))
+  = built (sx px) (sy px py).
+Proof.
+  intros L Hn S.
+  rewrite (init_of_set _ _ (set_scalars px py L ltac:(lia) S ltac:(lia)) ltac:(left; eexists; reflexivity) _ eq_refl).
+  reflexivity.
+Qed.
